@@ -213,7 +213,8 @@ def recon_case(ctx, s, idx, bmkind="grid"):
     noise, b, d, m, hden, n = s["noise"], s["batch"], s["d"], s["m"], s["hden"], s["n"]
     dyadic = hden & (hden - 1) == 0
     dt = 1.0 / hden
-    t0 = 0.25 if dyadic else 0.0
+    # dyadic grids: the time origin rotates, including time axes far from zero relative to the step (all exact)
+    t0 = [0.25, 16384.0, -4096.0][idx % 3] if dyadic else 0.0
     gen = torch.Generator().manual_seed((ctx.seed * 7919 + idx * 104729 + 17) % (2 ** 31))
     sde = H.SmoothSDE(noise, d, m, seed=ctx.seed * 31 + idx)
     y0 = torch.randn(b, d, generator=gen, dtype=F64)
